@@ -61,13 +61,20 @@ def build_device(spec, mesh=True):
     film = build_polygon(spec["film"], "film")
     holes = [build_polygon(h, h.get("name", f"hole{i}")) for i, h in enumerate(spec.get("holes", []))]
     terms = [build_polygon(t, t["name"]) for t in spec.get("terminals", [])]
+    probes = spec.get("probes")
+    if spec.get("offset"):
+        dx, dy = spec["offset"]
+        for poly in [film] + holes + terms:
+            poly.translate(dx, dy, inplace=True)
+        if probes:
+            probes = [[x + dx, y + dy] for x, y in probes]
     device = tdgl.Device(
         spec.get("name", "dev"),
         layer=layer,
         film=film,
         holes=holes,
         terminals=terms,
-        probe_points=spec.get("probes"),
+        probe_points=probes,
         length_units=spec.get("length_units", "um"),
     )
     if mesh:
